@@ -1025,3 +1025,105 @@ mod tests {
     handle.join().unwrap();
   }
 }
+
+/// Verification-only accessor (cfg `excsn_fibre_verif`): builds the real
+/// per-appender filters and the real `EventProcessor` from a processed
+/// configuration without installing the process-global subscriber, so routing
+/// can be observed for many configurations inside one process. Every
+/// appender of the configuration becomes an in-memory event stream.
+#[cfg(excsn_fibre_verif)]
+pub mod verif {
+  use super::*;
+  use crate::config::processed::{EncoderInternal, OverflowPolicy};
+  use tracing_core::{callsite, field, subscriber::Interest, Kind, Level, Metadata};
+
+  struct VerifCallsite;
+  impl callsite::Callsite for VerifCallsite {
+    fn set_interest(&self, _interest: Interest) {}
+    fn metadata(&self) -> &Metadata<'_> {
+      static META: Metadata<'static> = Metadata::new(
+        "verif_event",
+        "verif",
+        Level::TRACE,
+        None,
+        None,
+        None,
+        field::FieldSet::new(&[], callsite::Identifier(&VERIF_CALLSITE)),
+        Kind::EVENT,
+      );
+      &META
+    }
+  }
+  static VERIF_CALLSITE: VerifCallsite = VerifCallsite;
+
+  pub struct Router {
+    processor: EventProcessor,
+    streams: Vec<(String, mpsc::BoundedSyncReceiver<LogEvent>)>,
+  }
+
+  /// One event-stream actor per configured appender (sorted by name), wired
+  /// exactly like `init_from_file` wires them.
+  pub fn router_from_config(config: &ConfigInternal, capacity: usize) -> Router {
+    let mut names: Vec<&String> = config.appenders.keys().collect();
+    names.sort();
+    let mut actors = Vec::new();
+    let mut streams = Vec::new();
+    for name in names {
+      let (tx, rx) = mpsc::bounded::<LogEvent>(capacity);
+      actors.push(AppenderActor {
+        name: name.clone(),
+        filter: build_filter_for_appender(name, &config.loggers),
+        formatter: encoders::new_event_formatter(&EncoderInternal::default()),
+        action: ActorAction::SendEvent(tx),
+        overflow: OverflowPolicy::DropNewest,
+        drops: DropCounter::default(),
+      });
+      streams.push((name.clone(), rx));
+    }
+    Router {
+      processor: EventProcessor::new(actors, None),
+      streams,
+    }
+  }
+
+  impl Router {
+    /// Emits one event the way the `log` bridge (`via_log`) or the tracing
+    /// layer does: global fast-path check first, then `process_event`.
+    pub fn emit(&self, level: Level, target: &str, message: &str, via_log: bool) {
+      let metadata = Metadata::new(
+        "verif event",
+        target,
+        level,
+        None,
+        None,
+        None,
+        field::FieldSet::new(&["message"], callsite::Identifier(&VERIF_CALLSITE)),
+        Kind::EVENT,
+      );
+      let pass = if via_log {
+        level <= self.processor.max_level()
+      } else {
+        self.processor.event_enabled(&metadata)
+      };
+      if pass {
+        let event = LogEvent::new(level, target, target, Some(message.to_string()));
+        self.processor.process_event(event, &metadata);
+      }
+    }
+
+    /// Takes everything delivered so far, per appender.
+    pub fn drain(&self) -> Vec<(String, Vec<LogEvent>)> {
+      self
+        .streams
+        .iter()
+        .map(|(name, rx)| {
+          let mut got = Vec::new();
+          while let Ok(ev) = rx.try_recv() {
+            got.push(ev);
+          }
+          (name.clone(), got)
+        })
+        .collect()
+    }
+  }
+}
